@@ -519,7 +519,12 @@ class Representation(ObjectWithFields):
             segment_num = int(segment_time // self.segment_duration)
 
         seg_delta = self.timescale_to_timedelta(timecode)
-        fta = timing.firstAvailableTime - timing.leeway
+        # a segment becomes available when it is complete and stays
+        # available for its own duration plus timeShiftBufferDepth, so a
+        # segment that started up to two durations before
+        # firstAvailableTime has not expired yet
+        fta = (timing.firstAvailableTime - timing.leeway -
+               self.timescale_to_timedelta(2 * self.segment_duration))
         if (
                 seg_delta < fta or
                 seg_delta > timing.elapsedTime
